@@ -17,6 +17,7 @@ def check(pid, level):
 
 
 def run(pid, tier):
+    os.environ["VERIF_TIER_RUNNING"] = tier
     f, level = CHECKS[pid]
     rep = Report(pid, tier, level)
     f(tier, rep)
@@ -345,6 +346,17 @@ def confirm_compile_failures(rep, cviol, header, wrap):
             rep.notes.append("skipped (compiles against the real library but not against the exploration shim — shim gap, not a verdict): %s" % (d or q.id)[:200])
 
 
+def report_hung(rep, res, progs, what):
+    by = {p.id: p for p in progs}
+    for first, rest in res.hung:
+        rep.exhaustive = False
+        if first is None:
+            raise MachineryError("an exploration shard timed out without an identifiable program")
+        p = by[first]
+        rep.violate("%s | does not terminate" % p.meta.get("dsl", first), "%s: an execution of this program did not terminate within the shard time limit - the caller is left blocked (a poll or thread of the generated code never returns) [%s]" % (what, p.meta.get("dsl", first)[:400]),
+                    {"program": first, "dsl": p.meta.get("dsl"), "mac_body": p.mac, "ref_body": p.ref, "not_run_because_of_it": rest[1:]})
+
+
 def run_threads(rep, tier, setname, what, keep=None):
     """build the E3-T harness (all sets share one binary) and run one set"""
     from . import e3t, fam_threads
@@ -354,6 +366,7 @@ def run_threads(rep, tier, setname, what, keep=None):
     progs = sets[setname]
     progs = [p for p in progs if p.id not in {q.id for q, _ in cviol}]
     res = e3t.run_set(exe, setname, progs)
+    report_hung(rep, res, progs, what)
     rep.add("thread_programs", res.programs)
     rep.add("thread_rows", res.rows)
     rep.add("schedules", res.executions)
@@ -381,7 +394,7 @@ def run_threads(rep, tier, setname, what, keep=None):
              "unit_test": "// harness crate: #![no_std] extern crate vstd as std; (see vlib/e3t.py HEADER); replays ONE schedule with the scheduler, no explorer\nfn with_macro() -> String {\n%s\n}\n#[test]\nfn replay() {\n    vrt::set_inp(&%s);\n    let ex = vsched::run_one(with_macro, %s, &%s);\n    println!(\"{:?} {:?} deadlock={}\", ex.value, ex.log, ex.deadlock);\n    // expected (reference): value %s\n}\n"
              % (p.mac, json.dumps(v["row"]), "None" if "None" in v["caller"] else "Some(%s)" % json.dumps(v["caller"].replace('Some("', "").replace('")', "")), json.dumps(v["schedule"]), json.dumps(v.get("reference_value")))},
         )
-    for p in progs[:: max(1, len(progs) // 3)][:3]:
+    for p in [q for q in progs if q.id in res.results][:: max(1, len(progs) // 3)][:3]:
         rep.sample({"dsl": p.meta.get("dsl"), "execution": res.results[p.id].get("sample"), "schedules": res.results[p.id]["executions"]})
     return res
 
@@ -416,6 +429,7 @@ def run_async(rep, tier, setname, what, keep=None):
     bad = {q.id for q, _ in cviol}
     progs = [p for p in sets[setname] if p.id not in bad]
     res = e3a.run_set(exe, setname, progs)
+    report_hung(rep, res, progs, what)
     rep.add("async_programs", res.programs)
     rep.add("async_rows", res.rows)
     rep.add("decision_sequences", res.executions)
@@ -443,7 +457,7 @@ def run_async(rep, tier, setname, what, keep=None):
             {"program": p.id, "dsl": p.meta.get("dsl"), "reference": p.meta.get("ref"), "execution": v, "mac_body": p.mac, "ref_body": p.ref, "engine": "E3-A",
              "aprog": {"gates": p.gates, "gate_of": p.gate_of, "depths": p.depths, "spurious": p.spurious, "maxd": p.maxd}},
         )
-    for p in progs[:: max(1, len(progs) // 3)][:3]:
+    for p in [q for q in progs if q.id in res.results][:: max(1, len(progs) // 3)][:3]:
         rep.sample({"dsl": p.meta.get("dsl"), "execution": res.results[p.id].get("sample"), "decision_sequences": res.results[p.id]["executions"]})
     return res
 
